@@ -563,6 +563,8 @@ type Engine struct {
 	symObjs   map[string]*avObj
 	// ForkTables: indexing a sparse constant table with a symbolic index forks over the entries.
 	ForkTables bool
+	// TraceMapWrites: every element assignment to a map is recorded as a "mapwrite" event with the map value.
+	TraceMapWrites bool
 	// TraceConv: integer conversions are recorded as "conv" events (operand, position).
 	TraceConv bool
 	// Entered, when non-nil, collects the functions whose bodies were interpreted.
@@ -925,6 +927,9 @@ func (e *Engine) instrs(fr *frame, b *ssa.BasicBlock, from int, st *State, outs 
 				st.store(p, e.val(fr, st, in.Val))
 			}
 		case *ssa.MapUpdate:
+			if e.TraceMapWrites {
+				st.event(Event{Kind: "mapwrite", Pos: in.Pos(), Args: []AV{e.val(fr, st, in.Map)}})
+			}
 			if p, ok := e.val(fr, st, in.Map).(avPtr); ok {
 				k := "[" + avKey(e.val(fr, st, in.Key)) + "]"
 				st.store(avPtr{p.o, p.path + k}, e.val(fr, st, in.Value))
